@@ -71,6 +71,8 @@ func (r *decompressor) Reset(under io.Reader, _ []byte) error {
 	r.peekSize = 0
 	r.eof = false
 	r.err = nil
+	r.writePos = 0
+	r.readPos = 0
 	r.state.reset()
 	return nil
 }
